@@ -330,10 +330,15 @@ type fsShadow struct {
 	dirs   []string
 	exists map[[2]string]bool
 	live   map[int]string // handle -> mode
+	// contents, as far as the generator needs them (to ask for an AtomicCreate with exactly the bytes a name holds)
+	ino  map[[2]string]int
+	hino map[int]int
+	data map[int][]int
+	next int
 }
 
 func newFsShadow() *fsShadow {
-	return &fsShadow{exists: map[[2]string]bool{}, live: map[int]string{}}
+	return &fsShadow{exists: map[[2]string]bool{}, live: map[int]string{}, ino: map[[2]string]int{}, hino: map[int]int{}, data: map[int][]int{}}
 }
 
 func (s *fsShadow) hasDir(d string) bool {
@@ -375,19 +380,33 @@ func (s *fsShadow) update(op fsOp, rep fsRep) {
 		if rep.Ok == 1 {
 			s.exists[[2]string{op.D, op.N}] = true
 			s.live[rep.H] = "a"
+			s.next++
+			s.ino[[2]string{op.D, op.N}] = s.next
+			s.hino[rep.H] = s.next
 		}
 	case "open":
 		s.live[rep.H] = "r"
+		s.hino[rep.H] = s.ino[[2]string{op.D, op.N}]
+	case "append":
+		if i, ok := s.hino[op.H]; ok {
+			s.data[i] = append(append([]int{}, s.data[i]...), op.Data...)
+		}
 	case "close":
 		delete(s.live, op.H)
+		delete(s.hino, op.H)
 	case "delete":
 		delete(s.exists, [2]string{op.D, op.N})
+		delete(s.ino, [2]string{op.D, op.N})
 	case "link":
 		if rep.Ok == 1 {
 			s.exists[[2]string{op.D2, op.N2}] = true
+			s.ino[[2]string{op.D2, op.N2}] = s.ino[[2]string{op.D, op.N}]
 		}
 	case "atomiccreate":
 		s.exists[[2]string{op.D, op.N}] = true
+		s.next++
+		s.ino[[2]string{op.D, op.N}] = s.next
+		s.data[s.next] = append([]int{}, op.Data...)
 	}
 }
 
@@ -450,6 +469,12 @@ func genFsOp(r *rand.Rand, s *fsShadow, maxU int) *fsOp {
 				return &fsOp{Op: "link", D: p[0], N: p[1], D2: d2, N2: n}
 			}
 		case x < 94:
+			if ps := s.existing(); len(ps) > 0 && r.IntN(3) == 0 {
+				// over an existing name, with exactly the bytes the name holds now (still a NEW file: descriptors of
+				// the old one must not show through it, nor it through them)
+				p := ps[r.IntN(len(ps))]
+				return &fsOp{Op: "atomiccreate", D: p[0], N: p[1], Data: append([]int{}, s.data[s.ino[p]]...)}
+			}
 			if s.hasDir(d) {
 				return &fsOp{Op: "atomiccreate", D: d, N: n, Data: randUnits(r, maxU, 4)}
 			}
@@ -528,6 +553,24 @@ func C12(c *ev.Ctx) {
 	rr.Shuffle(len(sr.Prints), func(i, j int) { sr.Prints[i], sr.Prints[j] = sr.Prints[j], sr.Prints[i] })
 	if len(sr.Prints) > nb {
 		sr.Prints = sr.Prints[:nb]
+	}
+	{
+		// focused simulation: one directory, two names, one unit, whole-file reads only
+		cfg := fmt.Sprintf("CONSTANTS\n Dirs = {\"d\"}\n Names = {\"a\", \"b\"}\n Units = {1}\n MaxIno = 40\n MaxFd = 40\n MaxLive = 4\n MaxLen = 4\n D = %d\nINIT Init\nNEXT NextFocus\nINVARIANTS EmitHist\n", depth)
+		_ = os.WriteFile(filepath.Join(dir, "SimFilesysFocus.cfg"), []byte(cfg), 0644)
+		fr := tlc.Run{Dir: dir, Module: "Filesys", Cfg: "SimFilesysFocus.cfg", Workers: 1, Timeout: 15 * time.Minute,
+			Args: []string{"-deadlock", "-simulate", fmt.Sprintf("num=%d", nb/8+1), "-depth", fmt.Sprint(depth + 1), "-seed", fmt.Sprint(c.Seed + 5)}}.Do()
+		c.AddTLC(fr)
+		if fr.TLCError || len(fr.Prints) == 0 {
+			c.Inconclusive("focused simulation produced no behaviours:\n%s", tlc.Tail(fr.Out, 20))
+			return
+		}
+		rr.Shuffle(len(fr.Prints), func(i, j int) { fr.Prints[i], fr.Prints[j] = fr.Prints[j], fr.Prints[i] })
+		if len(fr.Prints) > nb/3 {
+			fr.Prints = fr.Prints[:nb/3]
+		}
+		c.Set("focused_behaviours", len(fr.Prints))
+		sr.Prints = append(sr.Prints, fr.Prints...)
 	}
 	replayed := 0
 	for bi, p := range sr.Prints {
